@@ -21,7 +21,7 @@
 (*                   link that leaves the archive root, dangles or loops does not exist.    *)
 (*                                                                                          *)
 (* Paths are sequences of components (<<"d", "e", "f">> is d/e/f, <<>> the archive root).   *)
-(* A member is [p, k, dest, tag]: k = "f" file, "d" explicit directory member (name ending  *)
+(* A member is [p, k, dest, tag, md] (md: class of its header fields, see MetaClasses): k = "f" file, "d" explicit directory member (name ending  *)
 (* in "/"), "l" symbolic link with target dest = [abs, c]; tag names the content class      *)
 (* (plain, mbox, exec, pyg, abstract, gophermap, links) and is data for gamma.              *)
 (*                                                                                          *)
@@ -74,8 +74,21 @@ NormPath(c) == LET r == NormAcc(<<>>, c) IN IF r = <<>> THEN <<".">> ELSE r
 \* The index ("dircache"): inode i is nodes[i]; inode 1 is the root directory ("0" in the
 \* code).  A directory node maps names to inodes (ents, in insertion order as a dict does),
 \* a file node holds the member it stands for.
-DirNode == [k |-> "d", ents |-> <<>>, m |-> <<>>]
-FileNode(p) == [k |-> "f", ents |-> <<>>, m |-> p]
+DirNode == [k |-> "d", ents |-> <<>>, m |-> <<>>, md |-> "std"]
+FileNode(p, md) == [k |-> "f", ents |-> <<>>, m |-> p, md |-> md]
+
+\* Per-member HEADER fields (member field md; gamma writes them into the real archive):
+\*   std     ordinary: Unix attributes, deflated, date 2020-01-01
+\*   dt0     stored DOS date/time all zero (1980-00-00 00:00:00: not a calendar date)
+\*   dtoor   fields outside a calendar date (month 15, day 31, hour 31, minute 63, second 62)
+\*   dt2107  the last year a DOS date can hold
+\*   stored  compress_type STORED          empty  zero bytes of content
+\*   dos     create_system 0 and no Unix attributes at all      mode0  Unix mode 000
+\* The index never looks at them.  VFSZip.stat does: it turns date_time into a time with
+\* time.mktime(zt + (0, 0, -1)), which NORMALISES any field combination (StatDefined is total), and
+\* reports a constant mode; so a member exists for stat whatever its header says.
+MetaClasses == {"std", "dt0", "dtoor", "dt2107", "stored", "empty", "dos", "mode0"}
+StatDefined(md) == md \in MetaClasses
 
 EntLookup(ents, n) ==
     LET S == {j \in 1..Len(ents) : ents[j].n = n}
@@ -135,7 +148,7 @@ AddMemberStep(st, m) ==
     THEN [st EXCEPT !.nodes = w.nodes,
                     !.pend = Append(@, [dir |-> w.at, name |-> SplitBase(m), path |-> m.p, dest |-> m.dest])]
     ELSE LET new == Len(w.nodes) + 1 IN
-         [st EXCEPT !.nodes = Append([w.nodes EXCEPT ![w.at].ents = EntPut(@, SplitBase(m), new)], FileNode(m.p))]
+         [st EXCEPT !.nodes = Append([w.nodes EXCEPT ![w.at].ents = EntPut(@, SplitBase(m), new)], FileNode(m.p, m.md))]
 
 \* second loop: the target as the code computes it (AbsIsArchiveRoot, LexicalDotDot).  The index is
 \* keyed by names transcoded back to bytes-with-surrogates; os.path.dirname(item["pathname"]) is the
@@ -174,15 +187,17 @@ Populate(ms) == LinkLoop(AddAll(Init0, ms))
 \* for an object that opened the saved shelve ("cached").
 ZipLook(st, memo, sel) ==
     LET r == GetInode(st.nodes, memo, sel) IN
-    IF ~r.ok THEN [k |-> "none", m |-> <<>>, names |-> {}]
+    IF ~r.ok THEN [k |-> "none", m |-> <<>>, names |-> {}, md |-> "std"]
     ELSE LET n == st.nodes[r.i] IN
-         [k |-> n.k, m |-> n.m, names |-> IF n.k = "d" THEN EntNames(n.ents) ELSE {}]
+         [k |-> n.k, m |-> n.m, names |-> IF n.k = "d" THEN EntNames(n.ents) ELSE {}, md |-> n.md]
 
 Ops == {"stat", "isdir", "isfile", "listdir", "open"}
 \* uniformly shaped results: [ok, v (a kind / truth value as a string), names, m]
 ZipOp(st, memo, op, sel) ==
     LET z == ZipLook(st, memo, sel) IN
-    CASE op = "stat"    -> [ok |-> z.k # "none", v |-> z.k, names |-> {}, m |-> <<>>]
+    CASE op = "stat"    -> IF z.k # "none" /\ (z.k = "f" => StatDefined(z.md))
+                           THEN [ok |-> TRUE, v |-> z.k, names |-> {}, m |-> <<>>]
+                           ELSE [ok |-> FALSE, v |-> "none", names |-> {}, m |-> <<>>]
       [] op = "isdir"   -> [ok |-> TRUE, v |-> IF z.k = "d" THEN "T" ELSE "F", names |-> {}, m |-> <<>>]
       [] op = "isfile"  -> [ok |-> TRUE, v |-> IF z.k = "f" THEN "T" ELSE "F", names |-> {}, m |-> <<>>]
       [] op = "listdir" -> [ok |-> z.k = "d", v |-> "", names |-> z.names, m |-> <<>>]
